@@ -12,6 +12,7 @@ from vx.units.rlabels import add_reader_labels
 from vx.units.rbranch import add_branch_helpers
 
 PROPS = ['C01']
+RLIMIT = 60
 R = 'duke/src/class_reader.rs'
 CC = 'duke/src/class_constants.rs'
 TA = 'duke/src/tree/type_annotation.rs'
